@@ -124,3 +124,38 @@ def batch(rng, n, extra_setup=None, extra_probe=None, only=None, plain=False, at
         lines += probe(rng, k, keys)
     lines.append(X(["PING"], [], full=True))
     return lines
+
+
+def restore_across_deadline(rng, n=12):
+    """a keyspace snapshot restored across a deadline (seeded change C06-loadsnapshot-skips-past-deadline): keys of every value type get a
+    1-second deadline late in a second; in the next second - the deadline reached, the timers not yet fired - the keyspace is written to a
+    snapshot and loaded into a fresh MemDb (line `L`: what a node restarting from its snapshot, or a follower that is sent one, does); every key
+    is then probed, before and after the moment the timers of the restored keyspace fire.  A key restored past its deadline must stay invisible."""
+    create = {
+        "str": lambda k: [["SET", k, "v"]], "list": lambda k: [["RPUSH", k, "a", "b"]], "set": lambda k: [["SADD", k, "m1", "m2"]],
+        "hash": lambda k: [["HSET", k, "f", "v"]], "zset": lambda k: [["ZADD", k, "1", "m"]], "stream": lambda k: [["XADD", k, "5-1", "f", "v"]],
+    }
+    reads = {"str": ["GET"], "list": ["LLEN"], "set": ["SCARD"], "hash": ["HLEN"], "zset": ["ZCARD"], "stream": ["XLEN"]}
+    lines = ["R", "A 820"]
+    scen = []
+    for i in range(n):
+        t = list(create)[i % 6]
+        k = b"r%d" % i
+        for c in create[t](k):
+            lines.append(X(c, [k]))
+        how = rng.choice(["expire1", "expire1", "expire1", "far", "none"]) if i >= 6 else "expire1"
+        if how == "expire1":
+            lines.append(X(["EXPIRE", k, "1"], [k]))
+        elif how == "far":
+            lines.append(X(["EXPIRE", k, "1000"], [k]))
+        scen.append((k, t))
+    lines.append(X(["PING"], [], full=True))
+    lines.append("A 30")
+    lines.append("L")
+    for rnd in range(2):
+        for k, t in scen:
+            lines += [X([reads[t][0], k], [k]), X(["TTL", k], [k]), X(["EXISTS", k], [k]), X(["TYPE", k], [k])]
+        lines.append(X(["KEYS", "r*"], [k for k, _ in scen], full=True))
+        if rnd == 0:
+            lines.append("A 980")
+    return lines
